@@ -13,7 +13,7 @@ import typing
 
 from ..seams import SimRandom
 from ..spec import features
-from ..world import SynthWorld, render_value, short_tb
+from ..world import SynthWorld, make_world, render_value, short_tb
 
 ID = "C02"
 LEVEL = "exploration"
@@ -82,9 +82,9 @@ def check_validators(ctx, w, v, t, hint, siblings, path):
         hints = dict(get_arguments(type(v)))
         sib = {}
         for fn, ft in w.ref.cls[n]["fields"]:
-            if hasattr(v, fn) and fn in hints:
-                check_validators(ctx, w, getattr(v, fn), ft, hints[fn], sib, f"{path}.{fn}")
-                sib[fn] = getattr(v, fn)
+            if w.ref.has_field(v, n, fn) and fn in hints:
+                check_validators(ctx, w, w.ref.field(v, n, fn), ft, hints[fn], sib, f"{path}.{fn}")
+                sib[fn] = w.ref.field(v, n, fn)
     elif k == "list" and isinstance(v, list):
         inner = typing.get_args(hint)[0]
         for i, e in enumerate(v):
@@ -134,8 +134,8 @@ def direct_generation(ctx, w):
             continue
         hints = dict(get_arguments(w.built.cls[c["name"]]))
         for fn, ft in c["fields"]:
-            if ft[0] != "ann" or ft[2][0].startswith("Dependent"):
-                continue
+            if ft[0] != "ann" or ft[2][0].startswith("Dependent") or ft[2][0] == "Opaque":
+                continue  # opaque: a refinement of the shipped corpus the reference does not model (may not even be an instance)
             hint = hints[fn]
             mh = hint.__metadata__[0]
             base = typing.get_args(hint)[0]
@@ -172,9 +172,16 @@ def direct_generation(ctx, w):
                                 f"{c['name']}.{fn}: {type(eff).__name__}.validate({v!r}) is False for a value its own generate() returned under policy {policy}; refinement {ft[2]}")
 
 
+def directed(tier):
+    """the shipped grammars and the test-suite hierarchies (real classes) under seeded configurations"""
+    from ..world import corpus_directed
+
+    return corpus_directed(tier, per_spec_quick=3, per_spec_thorough=12)
+
+
 def run(ctx):
     H = ctx.H
-    w = SynthWorld(ctx, feat=FEAT)
+    w = make_world(ctx, FEAT)
     try:
         ctx.sample = w.describe()
         if not w.extract().ok:
